@@ -343,7 +343,12 @@ def c_tmean(xs, ws, m, k, clip):
     p.want('keeps_spread', float(R.spread(y)), R.spread(xs), 'spread after ', tag)
     p.want('keeps_tvariance', mm.tvariance(y, ws, k, clip), v0, 'tvariance (mystic) after ', tag)
     out = 'ok:changed' if changed(y, xs) else 'ok:identity'
-    out += ':tmean=mass_trimmed_textbook' if (rt is not None and near(t0, rt)) else ':tmean!=mass_trimmed_textbook'
+    # definition: trimming k% of the *mass* from each end (boundary points keep the inside part of their
+    # mass; clip moves the cut mass onto the boundary points).  mystic agrees with this form everywhere,
+    # so it is judged (separate sub-clause), unlike the weighted median (DESIGN section 5).
+    if rt is not None and rv is not None:
+        p.want('tmean_definition', t0, rt, 'tmean(%r,%r,k=%r,clip=%r)' % (xs, ws, k, clip))
+        p.want('tvariance_definition', v0, rv, 'tvariance(%r,%r,k=%r,clip=%r)' % (xs, ws, k, clip))
     return out, p
 
 
@@ -632,6 +637,9 @@ PAIR_REPS_4 = [  # one representative per structure for 4 points (quick tier; th
 
 def clause_list(n, plan):
     """[(clause, params)] for vectors of length n under a plan"""
+    if plan.get('only') == 'pair_triples':
+        ordered = [(i, j) for i in range(n) for j in range(n) if i != j]
+        return [('collapse', {'pairs': [list(q) for q in c]}) for c in itertools.combinations(ordered, 3)]
     out = [('defs', {})]
     for fname in plan['funcs']:
         for tol in TOLS:
@@ -993,7 +1001,7 @@ def _chunks(seq, size):
 
 def plans(thorough):
     full = {'funcs': ['x', 'x*x', 'abs'], 'ks': KS_THOROUGH if thorough else KS,
-            'pair_set_size': {2: 2, 3: 3, 4: 3 if thorough else 1}, 'pair_reps': not thorough}
+            'pair_set_size': {2: 2, 3: 3, 4: 2 if thorough else 1}, 'pair_reps': True}
     return full
 
 
@@ -1009,6 +1017,8 @@ def run(ctx):
             for ch in _chunks(svs, 5):
                 for r in range(4):
                     items.append(('grid', (n, ch, plan, (r, 4))))
+            for ch in _chunks(orbit_representatives(4, ctx.seed), 40):     # all 220 three-pair sets, per orbit
+                items.append(('cases', (4, ch, {'only': 'pair_triples'})))
         else:
             for ch in _chunks(svs, 4):
                 items.append(('grid', (n, ch, plan, None)))
@@ -1036,7 +1046,8 @@ def run(ctx):
         'functions': plan['funcs'], 'expectation_tol': TOLS,
         'index_selections': 'None, every subset of range(n), [-1], [0,-1]',
         'pair_selections': {'max_pairs_in_a_set': plan['pair_set_size'],
-                            'extra': 'negative-index pairs; for n=4 in the quick tier all single pairs plus %d multi-pair representatives' % len(PAIR_REPS_4)},
+                            'extra': 'negative-index pairs; for n=4 additionally %d multi-pair representatives on every case and, in the thorough tier, '
+                                     'all 220 three-pair sets on one case per joint-permutation orbit' % len(PAIR_REPS_4)},
         'Lnorm': {'p': [0, 1, 2, 3, 'inf'], 'vectors': 'all of length 1..4', 'matrices': '2x2, 1x3, 3x1 with axis None/0/1'},
         'metrics': {'names': METRICS, 'x': 'all (n,d) arrays n,d in {1,2}', 'xp_alphabet': xp_alpha,
                     'modes': 'A (pair=False,axis=0), B (pair=True,axis=1), C (1-D,pair=True), D (1-D,dmin=2,axis=0), E (xp=None)'},
